@@ -19,6 +19,7 @@
     find <via> <depth> <tester>                                               → ok path:name:size:valuehex|… / <error>   (ASTFinder.find; tester = all | leaf | inner | name=<tag> | idx | deep>=<n>)
     fexists <path>                                                            → true|false / <error>                     (ASTFinder.exists)
     pathfyd <pathhex> <depth>                                                 → path:name:size:valuehex|…               (ASTFinder.full_pathfy(root, path, depth), any path string)
+    dsn.<fn> <delimhex> <hex…>                                                → DSN.left right shift root parent elements count join (join: parts hex, comma separated) with any delimiter
     conforms                                                                  → true|false  (every parent/child name pair of the tree is in Generated.GrammarChildren.kids)
     uheight <path>                                                            → ok <n> / Errors.NodeNotFound  (nested unresolvable levels from the entry at path, under the current table)
     chainfree                                                                 → true|false  (chainFreeB of the generated child table under the current table's resolvable tags)
@@ -199,6 +200,38 @@ def step (st : St) : List String → St × String
     match d.toInt? with
     | some depth => (st, showKVs (fullPathfyD st.w.root (unhexD p) depth))
     | none => (st, "bad-op")
+  | ["dsn.left", d, p, k] =>
+    match k.toInt? with
+    | some k => if unhexD d == ['.'] then (st, "ok " ++ Str.hex (dsnLeft (unhexD p) k)) else
+      (match dsnLeftBy (unhexD d) (unhexD p) k with | .ok r => (st, "ok " ++ Str.hex r) | .error er => (st, err er))
+    | none => (st, "bad-op")
+  | ["dsn.right", d, p, k] =>
+    match k.toInt? with
+    | some k => if unhexD d == ['.'] then (st, "ok " ++ Str.hex (dsnRight (unhexD p) k)) else
+      (match dsnRightBy (unhexD d) (unhexD p) k with | .ok r => (st, "ok " ++ Str.hex r) | .error er => (st, err er))
+    | none => (st, "bad-op")
+  | ["dsn.shift", d, p, k] =>
+    match k.toInt? with
+    | some k => if unhexD d == ['.'] then (st, "ok " ++ Str.hex (dsnShift (unhexD p) k)) else
+      (match dsnShiftBy (unhexD d) (unhexD p) k with | .ok r => (st, "ok " ++ Str.hex r) | .error er => (st, err er))
+    | none => (st, "bad-op")
+  | ["dsn.root", d, p] =>
+    match (if unhexD d == ['.'] then dsnRoot (unhexD p) else dsnRootBy (unhexD d) (unhexD p)) with
+    | .ok r => (st, "ok " ++ Str.hex r)
+    | .error er => (st, err er)
+  | ["dsn.parent", d, p] =>
+    match (if unhexD d == ['.'] then dsnParent (unhexD p) else dsnParentBy (unhexD d) (unhexD p)) with
+    | .ok r => (st, "ok " ++ Str.hex r)
+    | .error er => (st, err er)
+  | ["dsn.elements", d, p] =>
+    match (if unhexD d == ['.'] then .ok (dsnElements (unhexD p)) else dsnElementsBy (unhexD d) (unhexD p)) with
+    | .ok es => (st, "ok " ++ ",".intercalate (es.map Str.hex))
+    | .error er => (st, err er)
+  | ["dsn.count", d, p] =>
+    (st, toString (if unhexD d == ['.'] then dsnElemCounts (unhexD p) else dsnElemCountsBy (unhexD d) (unhexD p)))
+  | ["dsn.join", d, ps] =>
+    let parts := (ps.splitOn ",").map unhexD
+    (st, Str.hex (if unhexD d == ['.'] then dsnJoin parts else dsnJoinBy (unhexD d) parts))
   | ["conforms"] => (st, toString (conformsB (relOf Generated.GrammarChildren.kids) st.w.root))
   | ["uheight", p] =>
     match (pathfy st.w.root [⟨st.w.root.name, none⟩]).find? (fun pe => encodePath pe.1 == s2l p) with
